@@ -1081,4 +1081,28 @@ the `history` stream is the matching oracle). -/
 theorem no_hidden_module_state : Gen.moduleStateWrites = [] ∧ Gen.moduleStateScanned = 55 := by
   decide
 
+
+/-- **lists and tuples are refused by every `__call__`** (AttributeError), flat or nested, well-formed or not: no `np.asarray` is applied, the
+first statement of each `__call__` reads `argument.shape[1]` (pinned by the regenerated call specs, TC10g).  Arrays go through `callSpec`
+unchanged.  A statement about the hand-written wrapper `callAny` (tie C: `sequence` cases of the `batch` stream, all six classes, lists /
+tuples / nested lists / ragged lists); the point helpers DO accept sequences because they build the array themselves
+(`helper_pixel_agrees_batch`). -/
+theorem call_refuses_sequences (s : CallSpec) (a : Aff) (d r : Bool) :
+    callAny s a d r .sequence = .error .attribute ∧ ∀ b, callAny s a d r (.array b) = callSpec s a d r b :=
+  ⟨rfl, fun _ => rfl⟩
+
+
+/-- `get_image_coordinate_system` reads only the FIRST per-frame item.  DICOM (PS3.3 C.7.6.16.1.2) requires every item of the Per-frame
+Functional Groups Sequence to hold the same set of functional groups; under that assumption (hypothesis `huni`) the first item has a
+patient position iff EVERY frame has one, so `firstItemHasPatientPosition` of `coordinate_system_patient_iff` speaks for the whole image.
+The excluded, non-conformant images (position missing in the first frame only / in a later frame only) are run in the
+`coordinate_system` stream on every run: the library then builds NO transformer (no coordinate system) resp. refuses exactly the frames
+without a position - never a transformer with another frame's geometry. -/
+theorem coordinate_system_first_item_speaks_for_all (perFrame : List Groups)
+    (huni : ∀ g ∈ perFrame, ∀ g' ∈ perFrame, g.posPatient.isSome = g'.posPatient.isSome) :
+    ((perFrame.head?.bind (·.posPatient)).isSome = true) ↔ (perFrame ≠ [] ∧ ∀ g ∈ perFrame, g.posPatient.isSome = true) :=
+  first_item_speaks_for_all perFrame huni
+
+example : ∀ g ∈ exLocalizer.perFrame, ∀ g' ∈ exLocalizer.perFrame, g.posPatient.isSome = g'.posPatient.isSome := by decide
+
 end HdVerif.C10
